@@ -28,7 +28,10 @@ MODULE = 'PyPhysim.Properties.C10'
 DRIVER = 'drv_c10'
 CLAIM = {
     'technique': 'Lean 4: induction over operation histories of an Option-cache state machine (generic in the '
-                 'matrix operations) + Mathlib matrix algebra over C for the solver formulas with kernel results as '
+                 'matrix operations), tied to the source also by REGENERATION of the cache-invalidation structure '
+                 '(per class and entry point: attributes reset / assigned / conditionally written / lazily filled / '
+                 'read, re-emitted from the AST on every run, compared with the effect of the machine\'s step by '
+                 'kernel-checked decision, plus a decidable sufficiency condition on the generated tables) + Mathlib matrix algebra over C for the solver formulas with kernel results as '
                  'contract parameters (Ky Fan minimum principle proved from a certificate contract); seeded '
                  'differential correspondence of histories and formulas at binary64; first-principles oracles',
     'text': 'For every number of users, every interpretation of the matrix operations and every history of '
@@ -45,8 +48,35 @@ CLAIM = {
             'extreme eigenpairs (certificate: eigen-equation, orthonormality, PSD remainder); the MMSE precoder never '
             'exceeds the power for every multiplier satisfying the Newton contract; the repaired svd initialisation '
             'keeps exactly Ns singular vectors.  Negative witnesses for the design-round code (stale full_F / full_W_H, '
-            'half-built cache, sqrt(Ns)-norm min-leakage iterates failing the assertion, wrong svd column count).',
-    'note': 'trusted: numpy/scipy kernels (eig, solve, pinv, inv, svd, newton/brentq) as contract parameters checked '
+            'half-built cache, sqrt(Ns)-norm min-leakage iterates failing the assertion, wrong svd column count).  '
+            'Second tie of the cache machine (regeneration): Generated/C10Effects.lean lists, for IASolverBaseClass and '
+            'each concrete solver class found in the AST (overrides resolved per class; _clear_* and every other '
+            'private helper, property and super() call inlined whatever its name), what every entry point - public '
+            'methods, getters, setters, solve, _updateF/_updateW - does to every data attribute on its normal exits, '
+            'the attributes of a fresh object and what every lazy fill reads.  Theorems: model_step_has_table_effect '
+            '(for every Ops, K, state and argument, step changes nothing outside its effect table, lazily filled '
+            'fields only go None -> value, reset fields are None after every accepted call), '
+            'coherence_reads_only_spec_dependencies, generated_effects_match_model (every generated row restricted to '
+            'the eight attributes = the table of the model operation behind it, in every class; solve resets what '
+            'Op.solve resets and writes nothing else; other entry points write none of the eight), '
+            'generated_attributes_known (no unknown attribute; the eight start as None), '
+            'generated_fill_reads_match_model (the lazy caches of the source are the model\'s; dependency closures '
+            'agree with Coherent / FullFDerived) and generated_effects_sufficient (on the GENERATED tables: whoever '
+            'writes an attribute resets or rewrites on every normal path every cached attribute whose dependency '
+            'closure contains it - all entry points of all classes incl. _updateF / _updateW / solve); '
+            'generated_tables_preserve_coherence states what that condition means without reference to the hand model '
+            '(any value type, any coherence relations that read only the dependency closure); '
+            'model_effect_table_is_tight (every listed write really happens on a concrete probe).',
+    'note': 'Regeneration tie - trusted: harness/gen/_effects.py (abstract interpretation of the method bodies: last '
+            'write per attribute over all normal exits, loops to a fixpoint, try/except, helper / property / super() '
+            'inlining along the MRO, dict-of-bound-methods dispatch of _solve_init as a join over the referenced '
+            'methods; anything outside its fragment is reported as a broken tie); it does not see mutation through a '
+            'local alias or by code outside the class and is path-insensitive.  Partial: for solve only inclusions are '
+            'claimed (the stored solution is a parameter of Op.solve), and _full_F inside solve of the iterative '
+            'solvers is exempt from the sufficiency condition (filled and patched inside the loop / _solve_finalize; '
+            'covered by correspondence and oracles); _Ns is treated as a primary attribute (NsOK needs shape '
+            'contracts).  A changed set of resets breaks the bridge even if behaviour preserving.  '
+            'Further trusted: numpy/scipy kernels (eig, solve, pinv, inv, svd, newton/brentq) as contract parameters checked '
             'numerically per case; binary64 rounding (1e-9 RELATIVE to the data, scaled by the condition number of the '
             'equivalent channel for the filters; 1e-11 for the exact-power relation); the harness.  Model of solve = its '
             'effect on the eight attributes (the algorithms\' numeric content is covered by the formula correspondence, '
@@ -2503,6 +2533,18 @@ def correspond_formulas_store(ctx, n):
         ctx.branch('formula:store')
 
 
+# which comparison between the regenerated effect tables and the model fails (run only when the build broke)
+EFFECTS_DIAG = """import PyPhysim.Proofs.C10Gen
+open PyPhysim.CacheEffects PyPhysim.C10 PyPhysim.Generated.C10Effects
+def okOr (b : Bool) (s : String) : String := if b then "ok" else s
+#eval IO.println s!"DIAG rows-differ-from-model {okOr (rows.all (rowMatches stepMethods)) (toString ((rows.filter fun r => !rowMatches stepMethods r).map fun r => (r.cls, r.name, r.clears, r.assigns, r.mayWrite, r.fills)))}"
+#eval IO.println s!"DIAG entry-points-present {okOr (entryPointsPresent rows) "an expected entry point has no row"}"
+#eval IO.println s!"DIAG attributes-known {okOr (initMatches initAttrs && mentionsOnlyInit initAttrs rows) (toString (initAttrs.map fun e => (e.1, e.2.map fun x => x.1)))}"
+#eval IO.println s!"DIAG fill-reads-match-model {okOr (fillsMatch fillReads) (toString fillReads)}"
+#eval IO.println s!"DIAG sufficiency(class,entry,derived-attribute,written-attribute) {okOr (sufficientBut solveExempt (depsOf fillReads) rows) (toString ((violations (depsOf fillReads) rows).filter fun v => !(v.2.1 == "solve" && v.1 != "ClosedFormIASolver" && v.2.2.1 == "_full_F")))}"
+"""
+
+
 # ------------------------------------------------------------------ check
 def check(ctx):
     np.seterr(all='ignore')
@@ -2511,7 +2553,10 @@ def check(ctx):
                 'rejected powers, all five solvers + base class, every init mode, 4..30 ops incl. getter reads; '
                 'formula systems and solve/monotone cases drawn the same way; non-trivial = distinct history with '
                 '>= 3 ops / distinct (formula, system) / distinct oracle case')
-    core.prove(ctx, MODULE, drivers=[DRIVER], scratch=ctx.scratch)
+    proved = core.prove(ctx, MODULE, generated=['C10Effects'], drivers=[DRIVER], scratch=ctx.scratch)
+    if not proved and not any(b['kind'] == 'tie' for b in ctx.broken):
+        from harness.gen import _effects
+        _effects.diagnose(core, ctx, 'C10', EFFECTS_DIAG)
     ctx.required_branches = ['op:setP', 'op:rand', 'op:setprec', 'op:setfilt', 'op:solve', 'op:clear', 'op:rFWH',
                              'op:rFW', 'op:rFF', 'op:setinit', 'out:err:ValueError', 'out:err:RuntimeError',
                              'out:err:TypeError', 'op:query', 'op:fork'] + [
